@@ -13,7 +13,6 @@ use std::path::Path;
 use std::sync::{Arc, Mutex};
 
 #[allow(dead_code)]
-#[path = "/verif/harness/src/dump.rs"]
 mod dump;
 
 fn panic_msg(p: &Box<dyn std::any::Any + Send>) -> String {
